@@ -53,7 +53,7 @@ COMPONENTS = {
     "stub": ["file system (SimFS)", "raw byte stream (SimRaw)", "process exit (SystemExit trap)",
              "time (step clock on Base.__new__ + wall watchdog)"],
 }
-PROBES = ["focused_single_token_fault", "decode_handler_fired", "short_read_split_multibyte", "trunc_inside_literal",
+PROBES = ["include_dimension", "focused_single_token_fault", "decode_handler_fired", "short_read_split_multibyte", "trunc_inside_literal",
           "trunc_inside_continuation", "trunc_inside_directive", "system_exit_trapped",
           "eio_on_second_open", "eio_on_first_open", "cli_damaged_first", "cli_damaged_middle",
           "cli_damaged_last", "outcome_tree", "outcome_syntax", "faultfree_compared"]
@@ -279,6 +279,33 @@ def generate(run_seed, cfg):
         muts = [{"kind": "random_text", "changed": True}]
     else:
         data, muts = _damage(st, sw, text, cfg, None)
+    extra_files = {}
+    extra_faults = {}
+    if sw.random() < 0.10:
+        # INCLUDE dimension: the parsed bytes pull in a second file that is damaged, includes
+        # itself / its includer, cannot be opened, or fails while being read
+        how = sw.choice(["damaged", "self", "mutual", "eacces", "eio", "only_include", "ok"])
+        frag = " x = 1\n y = sin(x)\n"
+        lines_ = data.decode("utf-8", "replace").split("\n")
+        pos = sw.randrange(0, len(lines_) + 1)
+        lines_.insert(pos, " include 'inc.f90'")
+        if how == "only_include":
+            lines_ = [" include 'main.f90'"]
+        data = "\n".join(lines_).encode("utf-8")
+        if how == "damaged":
+            fdata, _ = _damage(st, sw, frag * 3, cfg, None)
+        elif how == "self":
+            fdata = (frag + " include 'inc.f90'\n").encode()
+        elif how == "mutual":
+            fdata = (frag + " include 'main.f90'\n").encode()
+        else:
+            fdata = frag.encode()
+        extra_files["inc.f90"] = _l1(fdata)
+        if how == "eacces":
+            extra_faults["inc.f90"] = {"eacces": True}
+        if how == "eio":
+            extra_faults["inc.f90"] = {"eio_at": sw.randrange(0, len(fdata)), "eio_open": 0}
+        muts = muts + [{"kind": "include_" + how, "changed": True}]
     if kind != "string":
         r = sw.random()
         if r < 0.12:
@@ -287,8 +314,12 @@ def generate(run_seed, cfg):
             faults["eio_once"] = sw.random() < 0.5
         elif r < 0.17 and kind == "filelike":
             faults["noseek"] = True
-    case.update({"mode": "parse", "reader": kind, "files": {"main.f90": _l1(data)},
-                 "faults": {"main.f90": faults} if faults else {}, "mutations": muts})
+    files = {"main.f90": _l1(data)}
+    files.update(extra_files)
+    allf = {"main.f90": faults} if faults else {}
+    allf.update(extra_faults)
+    case.update({"mode": "parse", "reader": kind, "files": files, "faults": allf,
+                 "mutations": muts})
     return case
 
 
@@ -419,6 +450,8 @@ def execute(case):
             nlines = data.count(b"\n") + 1
             file_faults = (case.get("faults") or {}).get("main.f90", {})
             io_fault = "eio_at" in file_faults or file_faults.get("noseek")
+            if any(m["kind"].startswith("include_") for m in case["mutations"]):
+                probe("include_dimension")
             source = "main.f90" if kind != "string" else data.decode("utf-8", "replace")
             parser = fp.create(std)
             clock.start(_budget(nlines))
